@@ -102,26 +102,47 @@ def r17_3(ctx):
     from .common import splice_generator_helpers
     f = splice_generator_helpers(ctx.repo.fn("syntax:Syntax.__rich_console__"))
     m = f.module
+    from ..astutil import inline as _inl173, single_defs as _sdf173
+    sd173 = _sdf173(f.node)
+
+    def full173(e):
+        return norm(_inl173(e, sd173))
+    # the range is unpacked into (first, last); names are read off the code
+    unpacks = [x for x in walk_local(f.node) if isinstance(x, ast.Assign) and isinstance(x.targets[0], ast.Tuple) and len(x.targets[0].elts) == 2 and full173(x.value) == "self.line_range"]
+    if not unpacks:
+        raise AnalysisError("Syntax.__rich_console__: `first, last = self.line_range` not found; the range handling is written in a form this rule does not read")
+    rs_name, re_name = (norm(e) for e in unpacks[0].targets[0].elts)
+    ctx.ok(f.where, "range unpacked as (start, end)", f.fq)
     off_defs = [x for x in walk_local(f.node) if isinstance(x, ast.Assign) and norm(x.targets[0]) == "line_offset"]
-    ok = any(norm(x.value) in ("max(0, start_line - 1)",) for x in off_defs) and any(norm(x.value) == "0" for x in off_defs)
+    if not off_defs:
+        raise AnalysisError("Syntax.__rich_console__: no `line_offset` variable; the numbering clause is not decided for this form")
+    ok = any(norm(x.value) in (f"max(0, {rs_name} - 1)", f"max({rs_name} - 1, 0)") for x in off_defs) and any(norm(x.value) == "0" for x in off_defs)
     ctx.check(ok, f.fq, "line_offset = max(0, start_line - 1)", f.where, "offset of the first displayed line derived from the range start (1-based), 0 without a range", "line_offset is not `max(0, range_start - 1)` / 0")
-    ru = any(isinstance(x, ast.Assign) and isinstance(x.targets[0], ast.Tuple) and norm(x.value) == "self.line_range" and [norm(e) for e in x.targets[0].elts] == ["start_line", "end_line"] for x in walk_local(f.node))
-    ctx.check(ru, f.fq, "start_line, end_line = self.line_range", f.where, "range unpacked as (start, end)", "line_range is not unpacked as (start_line, end_line)")
-    slices = [x for x in walk_local(f.node) if isinstance(x, ast.Assign) and isinstance(x.value, ast.Subscript) and isinstance(x.value.slice, ast.Slice) and norm(x.targets[0]) == "lines" and norm(x.value.value) == "lines"]
-    ctx.check(len(slices) == 1, f.fq, "lines = lines[a:b]", f.where, "one range slice of the line list", f"{len(slices)} slices of `lines` found (expected exactly one)")
-    enums = [x for x in walk_local(f.node) if isinstance(x, ast.For) and isinstance(x.iter, ast.Call) and call_name(x.iter) == "enumerate" and norm(x.iter.args[0]) == "lines"]
-    ctx.check(len(enums) == 1, f.fq, "for line_no, line in enumerate(lines, ...)", f.where, "one numbering loop", "numbering loop over enumerate(lines, first_number) not found")
+    # the list that is numbered, and the one slice that selects the range from the split of the highlighted text
+    enums = [x for x in walk_local(f.node) if isinstance(x, ast.For) and isinstance(x.iter, ast.Call) and call_name(x.iter) == "enumerate" and len(x.iter.args) == 2 and isinstance(x.iter.args[0], ast.Name)]
+    if len(enums) != 1:
+        raise AnalysisError("Syntax.__rich_console__: the numbering loop `for n, line in enumerate(<lines>, <first>)` was not found")
+    lines_v = enums[0].iter.args[0].id
+
+    def _is_split(e):
+        return isinstance(e, ast.Call) and isinstance(e.func, ast.Attribute) and e.func.attr == "split" and e.args and isinstance(e.args[0], ast.Constant) and e.args[0].value == "\n"
+    slices = [x for x in walk_local(f.node) if isinstance(x, ast.Assign) and isinstance(x.value, ast.Subscript) and isinstance(x.value.slice, ast.Slice) and norm(x.targets[0]) == lines_v
+              and (norm(x.value.value) == lines_v or _is_split(x.value.value))]
+    if len(slices) != 1:
+        raise AnalysisError(f"Syntax.__rich_console__: {len(slices)} range slices of `{lines_v}` found (expected exactly one); not decided")
+    ctx.ok(f.where, "one range slice of the line list", f.fq)
     if slices and enums:
         sl = slices[0].value.slice
         start = enums[0].iter.args[1] if len(enums[0].iter.args) > 1 else ast.Constant(value=0)
+        start = _inl173(start, {k_: v_ for k_, v_ in sd173.items() if k_ != "line_offset"})
         lo = norm(sl.lower) if sl.lower is not None else "0"
         form = lin(start)
         ok = form.get("self.start_line") == 1 and form.get(lo) == 1 and len([k for k in form if form[k]]) == 2 if lo != "0" else False
         ctx.check(ok, f.fq, f"lines[{lo}:...] / enumerate(lines, {norm(start)})", f"{m.relpath}:{enums[0].lineno}", f"first number = self.start_line + {lo}, the slice's own lower bound",
                   f"the lines are sliced from `{lo}` but numbered from `{norm(start)}`: the number shown next to a line is not that line's number in the source")
-        ctx.check(sl.upper is not None and norm(sl.upper) == "end_line", f.fq, f"lines[{lo}:{norm(sl.upper) if sl.upper is not None else ''}]", f"{m.relpath}:{slices[0].lineno}", "slice ends at the range end (clipped by list slicing)", "the range slice does not end at end_line")
+        ctx.check(sl.upper is not None and norm(sl.upper) == re_name, f.fq, f"lines[{lo}:{norm(sl.upper) if sl.upper is not None else ''}]", f"{m.relpath}:{slices[0].lineno}", "slice ends at the range end (clipped by list slicing)", "the range slice does not end at end_line")
         par = m.parent_of.get(slices[0])
-        ctx.check(isinstance(par, ast.If) and norm(par.test) == "self.line_range", f.fq, "if self.line_range", f"{m.relpath}:{slices[0].lineno}", "slicing only when a range was requested", "line slicing is not guarded by `if self.line_range`")
+        ctx.check(isinstance(par, ast.If) and full173(par.test) == "self.line_range", f.fq, "if self.line_range", f"{m.relpath}:{slices[0].lineno}", "slicing only when a range was requested", "line slicing is not guarded by `if self.line_range`")
     # highlight marker compares the displayed number
     ctx.check("highlight_line(line_no)" in norm(f.node) and "highlight_line = self.highlight_lines.__contains__" in norm(f.node), f.fq, "highlight_line(line_no)", f.where, "the failing-line marker is chosen by the displayed line number", "the highlight marker is not selected by the displayed line number")
     ctx.check("str(line_no).rjust(numbers_column_width - 2)" in norm(f.node), f.fq, "str(line_no)", f.where, "the gutter shows line_no", "the gutter does not show the enumerated line number")
@@ -145,9 +166,9 @@ def r17_3(ctx):
             okw = False
     ctx.check(okw, w.fq, "gutter width", w.where, "gutter wide enough for the largest line number", "gutter width is no longer derived from start_line + number of newlines")
     # text -> lines: split on newline of the highlighted text, after removing one trailing newline
-    hl_vars = {norm(x.targets[0]) for x in walk_local(f.node) if isinstance(x, ast.Assign) and isinstance(x.value, ast.Call) and norm(x.value.func) == "self.highlight" and len(x.value.args) == 2 and norm(x.value.args[1]) == "self.line_range"}
-    split_ok = any(isinstance(x, ast.Assign) and isinstance(x.value, ast.Call) and isinstance(x.value.func, ast.Attribute) and x.value.func.attr == "split" and norm(x.value.func.value) in hl_vars
-                   and len(x.value.args) == 1 and isinstance(x.value.args[0], ast.Constant) and x.value.args[0].value == "\n" and all(k.arg == "allow_blank" for k in x.value.keywords)
+    hl_vars = {norm(x.targets[0]) for x in walk_local(f.node) if isinstance(x, ast.Assign) and isinstance(x.value, ast.Call) and norm(x.value.func) == "self.highlight" and len(x.value.args) == 2 and full173(x.value.args[1]) == "self.line_range"}
+    split_ok = any(isinstance(x, ast.Call) and isinstance(x.func, ast.Attribute) and x.func.attr == "split" and norm(x.func.value) in hl_vars
+                   and len(x.args) == 1 and isinstance(x.args[0], ast.Constant) and x.args[0].value == "\n" and all(k.arg == "allow_blank" for k in x.keywords)
                    for x in walk_local(f.node))
     ctx.check(bool(hl_vars) and split_ok, f.fq, "lines = text.split('\\n')", f.where, "display lines are the newline-split of the highlighted code", "display lines are not the newline split of the highlighted text")
 
@@ -307,14 +328,26 @@ def r17_9(ctx):
     m = f.module
     from ..astutil import inline as _inl, single_defs as _sdf
     # the slice by the range:  lines = lines[<offset>:<end>]  and the split that defines `lines`
-    slices = [x for x in walk_local(f.node) if isinstance(x, ast.Assign) and isinstance(x.value, ast.Subscript) and isinstance(x.value.slice, ast.Slice) and isinstance(x.value.value, ast.Name) and x.value.slice.upper is not None and "end" in norm(x.value.slice.upper)]
+    slices = [x for x in walk_local(f.node) if isinstance(x, ast.Assign) and isinstance(x.value, ast.Subscript) and isinstance(x.value.slice, ast.Slice) and x.value.slice.upper is not None and "end" in norm(x.value.slice.upper)]
     if len(slices) != 1:
         raise AnalysisError("Syntax.__rich_console__: the slice of the lines by the range (`lines[offset:end_line]`) was not found")
-    var = slices[0].value.value.id
-    splits = [x for x in walk_local(f.node) if isinstance(x, ast.Assign) and norm(x.targets[0]) == var and isinstance(x.value, ast.Call) and isinstance(x.value.func, ast.Attribute) and x.value.func.attr == "split" and x.lineno < slices[0].lineno]
-    if len(splits) != 1:
-        raise AnalysisError(f"Syntax.__rich_console__: expected one `{var} = <text>.split(...)` before the range slice")
-    sp = splits[0]
+    base_ = slices[0].value.value
+    if isinstance(base_, ast.Call) and isinstance(base_.func, ast.Attribute) and base_.func.attr == "split":
+        # split and slice in one expression
+        class _S:
+            pass
+        sp = _S()
+        sp.value, sp.lineno = base_, slices[0].lineno
+        sp_short = short(slices[0])
+    elif isinstance(base_, ast.Name):
+        var = base_.id
+        splits = [x for x in walk_local(f.node) if isinstance(x, ast.Assign) and norm(x.targets[0]) == var and isinstance(x.value, ast.Call) and isinstance(x.value.func, ast.Attribute) and x.value.func.attr == "split" and x.lineno <= slices[0].lineno]
+        if len(splits) != 1:
+            raise AnalysisError(f"Syntax.__rich_console__: expected one `{var} = <text>.split(...)` before the range slice")
+        sp = splits[0]
+        sp_short = short(sp)
+    else:
+        raise AnalysisError("Syntax.__rich_console__: the range slice is taken of something this rule does not read")
     # premise: the text is stripped of exactly one trailing newline before the split
     stripped = any(isinstance(c, ast.Call) and isinstance(c.func, ast.Attribute) and c.func.attr in ("remove_suffix", "rstrip") for c in walk_local(f.node))
     if not stripped:
@@ -322,12 +355,12 @@ def r17_9(ctx):
     ab = kwarg(sp.value, "allow_blank")
     where = f"{m.relpath}:{sp.lineno}"
     if ab is None:
-        ctx.violation(f.fq, short(sp), where, f"`{short(sp)}` drops a trailing blank line (Text.split's default) although the lines are then selected by the range: a range whose last line is blank loses that line - Syntax('a\\nb\\n\\nc', 'python', line_numbers=True, line_range=(1, 3)) shows lines 1-2 only")
+        ctx.violation(f.fq, sp_short, where, f"`{sp_short}` drops a trailing blank line (Text.split's default) although the lines are then selected by the range: a range whose last line is blank loses that line - Syntax('a\\nb\\n\\nc', 'python', line_numbers=True, line_range=(1, 3)) shows lines 1-2 only")
         return
     v = norm(_inl(ab, _sdf(f.node)))
     ok = v in ("True", "bool(self.line_range)", "self.line_range is not None", "bool(line_range)") or "line_range" in v
     if isinstance(ab, ast.Constant) and ab.value is False:
-        ctx.violation(f.fq, short(sp), where, "allow_blank=False: a range whose last line is blank loses that line")
+        ctx.violation(f.fq, sp_short, where, "allow_blank=False: a range whose last line is blank loses that line")
         return
     if not ok:
         raise AnalysisError(f"Syntax.__rich_console__: allow_blank=`{v}` - cannot tell whether it is on when a range is in force")
